@@ -538,9 +538,21 @@ func main() {
 		{"drpcmigrate/prefixconn.go", "newPrefixConn"}, {"drpcmigrate/prefixconn.go", "prefixConn.Read"},
 		{"drpcmigrate/header.go", "HeaderConn.Write"},
 		{"drpcctx/tracker.go", "Tracker.Run"}, {"drpcctx/tracker.go", "Tracker.track"}, {"drpcctx/tracker.go", "Tracker.Wait"},
+		{"cmd/protoc-gen-go-drpc/main.go", "main"}, {"cmd/protoc-gen-go-drpc/main.go", "generateFile"},
+		{"cmd/protoc-gen-go-drpc/main.go", "drpc.EncodingName"}, {"cmd/protoc-gen-go-drpc/main.go", "drpc.RPCGoString"},
+		{"cmd/protoc-gen-go-drpc/main.go", "drpc.ClientIface"}, {"cmd/protoc-gen-go-drpc/main.go", "drpc.ClientImpl"},
+		{"cmd/protoc-gen-go-drpc/main.go", "drpc.ServerIface"}, {"cmd/protoc-gen-go-drpc/main.go", "drpc.ServerUnimpl"},
+		{"cmd/protoc-gen-go-drpc/main.go", "drpc.ServerDesc"},
+		{"cmd/protoc-gen-go-drpc/main.go", "drpc.ClientStreamIface"}, {"cmd/protoc-gen-go-drpc/main.go", "drpc.ClientStreamImpl"},
+		{"cmd/protoc-gen-go-drpc/main.go", "drpc.ServerStreamIface"}, {"cmd/protoc-gen-go-drpc/main.go", "drpc.ServerStreamImpl"},
+		{"cmd/protoc-gen-go-drpc/main.go", "drpc.generateEncoding"}, {"cmd/protoc-gen-go-drpc/main.go", "drpc.generateService"},
+		{"cmd/protoc-gen-go-drpc/main.go", "drpc.generateClientSignature"}, {"cmd/protoc-gen-go-drpc/main.go", "drpc.generateClientMethod"},
+		{"cmd/protoc-gen-go-drpc/main.go", "drpc.generateServerSignature"},
+		{"cmd/protoc-gen-go-drpc/main.go", "drpc.generateUnimplementedServerMethod"},
+		{"cmd/protoc-gen-go-drpc/main.go", "drpc.generateServerReceiver"}, {"cmd/protoc-gen-go-drpc/main.go", "drpc.generateServerMethod"},
 	}
 	for _, f := range fps {
-		id := strings.NewReplacer(".", "_", "/", "_").Replace(strings.TrimSuffix(f[0], ".go") + "_" + f[1])
+		id := strings.NewReplacer(".", "_", "/", "_", "-", "_").Replace(strings.TrimSuffix(f[0], ".go") + "_" + f[1])
 		p("def fp_%s : List String :=\n  %s\n", id, leanList(fingerprint(f[0], f[1])))
 	}
 	p("\n")
